@@ -51,7 +51,13 @@ def check(v, tier, seed):
         elif rc != 0:
             v.violation({"what": "crash / abort while independent encoders / decoders run concurrently", "campaign": name, "rc": rc, "output": out[-1500:]}, tags={"kind": "crash"})
             continue
-        recs = vlib.read_ndjson(f)
+        try:
+            recs = vlib.read_ndjson(f)
+        except ValueError:
+            # a run that raced or crashed may leave a torn record file; the run itself has been reported above
+            if not v.violations:
+                raise vlib.Infra("unreadable record file of campaign %s" % name)
+            continue
         allrecs += recs
         parts.append((name, len(recs)))
     vlib.write_ndjson(obs, allrecs)
